@@ -7,6 +7,7 @@ CONSTANTS
   SingleCounts = {1, 2, 4, 5, 7, 9, 11, 16}
   HistSites = {2, 3}
   RotStep = 2
+  Hist16 = FALSE
   Emit = TRUE
   Strict = FALSE
 INVARIANT CInv_TypeOK
